@@ -212,17 +212,37 @@ func c18OracleScript(f []string, scratch string, n int, self string) string {
 	sh.Env = []string{"PATH=/usr/bin:/bin"}
 	sh.Dir = shCwd
 	sh.Stdin = strings.NewReader(script)
-	_, err := sh.Output()
+	shOut, err := sh.Output()
 	class := "template_value"
 	if strings.Contains(s.md, "\n") {
 		class = "newline_in_pipestance_path"
+	} else if strings.Contains(cmdPath, "=") && strings.Contains(s.template, "env __MRO_CMD__") {
+		// env(1) takes every leading operand that contains '=' for an
+		// assignment, so a command path with '=' in it is never executed
+		class = "equals_sign_in_command_path"
 	}
 	want := dumpFormat(append([]string{cmdPath}, s.argv...), s.envs, s.keys)
 	var got string
-	for i := 0; i < 400; i++ { // the template may have put the command in the background
+	// the template may have put the command in the background and printed its
+	// pid (fake_remote: "... & echo $!"): wait for that process, not for a
+	// fixed time, which is too short under load and too long for the cases in
+	// which nothing is ever written
+	bgPid := strings.TrimSpace(string(shOut))
+	if _, e := strconv.Atoi(bgPid); e != nil {
+		bgPid = ""
+	}
+	for i := 0; i < 6000; i++ {
 		if b, e := os.ReadFile(dumpFile); e == nil {
 			got = string(b)
 			break
+		}
+		if bgPid == "" && i >= 40 {
+			break
+		}
+		if bgPid != "" {
+			if _, e := os.Stat("/proc/" + bgPid); e != nil && i >= 40 {
+				break
+			}
 		}
 		time.Sleep(5 * time.Millisecond)
 	}
